@@ -22,16 +22,22 @@ pub(crate) fn parse_offset(string: &str) -> Result<i32, AstrolabeError> {
         ));
     }
 
-    let hour = string[1..3].parse::<u32>().map_err(|_| {
-        create_invalid_format(
-            "Failed parsing the hour of the offset from the RFC 3339 string".to_string(),
-        )
-    })?;
-    let min = string[4..6].parse::<u32>().map_err(|_| {
-        create_invalid_format(
-            "Failed parsing the minute of the offset from the RFC 3339 string".to_string(),
-        )
-    })?;
+    let hour = string
+        .get(1..3)
+        .and_then(|hour| hour.parse::<u32>().ok())
+        .ok_or_else(|| {
+            create_invalid_format(
+                "Failed parsing the hour of the offset from the RFC 3339 string".to_string(),
+            )
+        })?;
+    let min = string
+        .get(4..6)
+        .and_then(|min| min.parse::<u32>().ok())
+        .ok_or_else(|| {
+            create_invalid_format(
+                "Failed parsing the minute of the offset from the RFC 3339 string".to_string(),
+            )
+        })?;
 
     if hour > 23 {
         return Err(create_invalid_format(
